@@ -38,6 +38,65 @@ def _cols(arr):
     return [S.fr_list(arr[:, i]) for i in range(arr.shape[1])]
 
 
+def _call_sift(x, o, thr, cap):
+    """the real sift on a fresh WRITABLE copy (read-only inputs are C19's subject; an implementation may use its argument as
+    scratch space): every verdict compares with the pristine case['x']"""
+    import emd
+    return emd.sift.sift(np.array(x, dtype=float), **S.sift_kwargs(o, thr, cap))
+
+
+def _call_gni(x, o):
+    import emd
+    return emd.sift.get_next_imf(np.array(x, dtype=float), envelope_opts=S.env_kwargs(o), extrema_opts=S.ext_kwargs(o),
+                                 **S.imf_kwargs(o))
+
+
+def _peel(x, o, layers):
+    """S.peel (manual peeling with the public get_next_imf, exit path of every layer) with writable inputs"""
+    X = np.array(x, dtype=float)[:, None]
+    rows = []
+    r = X.copy()
+    imf = None
+    for k in range(layers):
+        try:
+            ref = S.reference(r[:, 0].copy(), o, extra=0)
+            e = ref['exit']
+            path = 'truncated' if e is None else '%s@%s' % (e[0], '0' if e[1] == 0 else '>=1')
+        except Exception:  # noqa
+            path = 'envelope-raises'
+        rin = r[:, 0].copy()
+        try:
+            c, f = _call_gni(rin, o)
+        except Exception as e:  # noqa
+            rows.append((rin, None, False, err_kind(e), path))
+            break
+        c = np.asarray(c)
+        rows.append((rin, c[:, 0].copy(), bool(f), None, path))
+        imf = c if imf is None else np.concatenate((imf, c), axis=1)
+        r = X - imf.sum(axis=1)[:, None]
+    return rows
+
+
+def burst_ramp(rng, n):
+    """a monotone ramp carrying ONE short burst of 2-4 oscillations close to one end: the few extrema sit far from the other
+    edge, so mirroring them out to it takes many rounds of the padding loop (round-3 seeded change: the loop gave up after 32
+    rounds and reported 'no extrema', which ends the sift on an oscillating component)"""
+    t = np.arange(n, dtype=float)
+    x = rng.choice([0.5, 1.0, 3.0]) * t / n
+    per = rng.choice([4, 5, 6, 8])
+    ncyc = rng.choice([2, 3, 3, 4])
+    m = min(per * ncyc, n - 4)
+    start = rng.randint(2, max(2, min(30, n - m - 2)))
+    b = np.arange(m)
+    burst = rng.uniform(0.3, 1.0) * np.sin(2 * np.pi * b / per + rng.uniform(0, 6.28)) * np.hanning(m + 2)[1:-1]
+    x[start:start + m] += burst
+    if rng.random() < 0.5:
+        x = x[::-1].copy()
+    if rng.random() < 0.3:
+        x = -x
+    return x
+
+
 class SiftRun(Stream):
     name = 'sift'
 
@@ -60,6 +119,17 @@ class SiftRun(Stream):
         c.append({'x': S.fr_list(x), 'opts': dict(base), 'thr': 1e-8, 'cap': 2, 'family': 'corpus-cap'})
         c.append({'x': S.fr_list(x), 'opts': dict(base), 'thr': 30.0, 'cap': None, 'family': 'corpus-thr'})
         c.append({'x': S.fr_list(x), 'opts': dict(base, energy_thresh=20), 'thr': 1e-8, 'cap': None, 'family': 'corpus-energy'})
+        # round-3 seeded change (padding loop gives up after 32 rounds): a ramp with one short burst near its start; reflecting the
+        # 3 maxima / minima out to the far edge takes ~50 (n=400, period 6, pad 1) resp. ~40 (n=3000, period 24, pad 3) rounds
+        for n, per, pad, stop in ((400, 6, 1, 'sd'), (3000, 24, 3, 'rilling')):
+            t = np.arange(n)
+            y = 3.0 * t / n
+            m = int(2.5 * per)
+            y[20:20 + m] += 0.5 * np.sin(2 * np.pi * np.arange(m) / per) * np.hanning(m)
+            o = dict(base, pad_width=pad, stop_method=stop)
+            if stop == 'rilling':
+                o['rilling_thresh'] = [0.05, 0.5, 0.05]
+            c.append({'x': S.fr_list(y), 'opts': o, 'thr': 1e-8, 'cap': None, 'family': 'corpus-burst-ramp'})
         return c
 
     def generate(self, rng, tier):
@@ -67,6 +137,16 @@ class SiftRun(Stream):
             xo = S.gen_vanishing(rng)
             if xo is not None:
                 yield {'x': S.fr_list(xo[0]), 'opts': dict(xo[1], energy_thresh=None), 'thr': 1e-8, 'cap': None, 'family': 'vanishing'}
+        for i in range(120 if tier == 'thorough' else 12):
+            n = rng.choice([200, 300, 400, 600] + ([1000, 2000] if tier == 'thorough' else []))
+            o = S.gen_opts(rng, tier, allow_energy=False, family='burstramp')
+            o['pad_width'] = rng.choice([1, 1, 2, 3])
+            o['env_step_size'] = 1
+            if o['stop_method'] == 'fixed':
+                o['max_iters'] = rng.choice([3, 5, 10])
+            else:
+                o['max_iters'] = 50
+            yield {'x': S.fr_list(burst_ramp(rng, n)), 'opts': o, 'thr': 1e-8, 'cap': None, 'family': 'burstramp'}
         ncase = 4000 if tier == 'thorough' else 330
         nmax = 384 if tier == 'thorough' else 64
         for i in range(ncase):
@@ -102,7 +182,7 @@ class SiftRun(Stream):
         out = {}
         try:
             with S.time_limit(IMPL_TIMEOUT):
-                imf = S.call_sift(x, o, case['thr'], case['cap'])
+                imf = _call_sift(x, o, case['thr'], case['cap'])
             imf = np.asarray(imf)
             out['res'] = {'shape': list(imf.shape), 'cols': _cols(imf) if imf.ndim == 2 else []}
             K = imf.shape[1] if imf.ndim == 2 else 0
@@ -114,7 +194,7 @@ class SiftRun(Stream):
                 return out
         try:
             with S.time_limit(IMPL_TIMEOUT):
-                rows = S.peel(x, o, K + 2, with_paths=True)
+                rows = _peel(x, o, K + 2)
             out['table'] = [[S.fr_list(r), None if c is None else S.fr_list(c), f, err, path] for r, c, f, err, path in rows]
         except Exception as e:  # noqa
             out['table_error'] = err_kind(e)
@@ -127,7 +207,7 @@ class SiftRun(Stream):
 
     def compare(self, case, out, results):
         if isinstance(out, ImplError):
-            return 'harness impl wrapper raised %s' % out['error']
+            return 'skip:timeout' if out['error'] == 'Timeout' else 'harness impl wrapper raised %s' % out['error']
         if 'table' not in out:
             return 'skip:peeling-timeout'
         res = out['res']
@@ -166,7 +246,10 @@ class SiftRun(Stream):
 
     def holds(self, case, out):
         if isinstance(out, ImplError):
-            return [Failure('harness-crashed:' + out['error'], out.get('msg', ''))]
+            if out['error'] == 'Timeout':
+                return []          # run time is not C01's subject (C04 owns termination): skipped and tagged, see compare()
+            # impl() catches everything the library raises: what arrives here is a problem of the harness wrapper itself
+            return [Failure('harness-crashed:' + out['error'], out.get('msg', ''), literal=False)]
         res, o = out['res'], case['opts']
         x = np.array(case['x'], dtype=float)
         n = len(x)
@@ -174,11 +257,12 @@ class SiftRun(Stream):
         fs = []
         if 'error' in res:
             if res['error'] == 'Timeout':
-                return [Failure('does-not-terminate', 'no result within %ds' % IMPL_TIMEOUT)]
+                return []          # skipped and tagged (outer=raises:Timeout): C01 says nothing about run time
             if res['error'] == 'EMDSiftCovergeError':
-                # legitimate only if an extraction of the peeling table raises it too
+                # the documented error of the extraction layer: C01 is vacuous (no components). That the harness's own peeling
+                # hits the same error is a mechanism-level expectation (a differently rounded residual may differ on a borderline)
                 if 'table' in out and not any(r[3] == 'EMDSiftCovergeError' for r in out['table']):
-                    fs.append(Failure('converge-error-not-reproduced-by-peeling', ''))
+                    fs.append(Failure('converge-error-not-reproduced-by-peeling', '', literal=False))
                 return fs
             return [Failure('raises:' + res['error'], res.get('msg', ''))]
         if len(res['shape']) != 2 or res['shape'][0] != n or res['shape'][1] < 1:
@@ -201,13 +285,16 @@ class SiftRun(Stream):
             if pk >= 2 and tr >= 2:
                 fs.append(Failure('last-component-oscillatory', 'natural end but the last component has %d maxima and %d minima' % (pk, tr)))
         if case['cap'] is not None and case['cap'] >= 1 and K > case['cap']:
-            fs.append(Failure('more-components-than-cap', '%d > %d' % (K, case['cap'])))
+            # C03's statement (C01 only uses "cap reached" as an excuse): mechanism-level here
+            fs.append(Failure('more-components-than-cap', '%d > %d' % (K, case['cap']), literal=False))
         # extractor contract on the rows of the peeling table
         if 'table' in out and o.get('energy_thresh') is None:
             for k, (r, c, f, e, path) in enumerate(out['table']):
                 if c is not None and not f and not np.array_equal(np.array(c), np.array(r)):
+                    # an ASSUMPTION of the proof about the public helper, not C01's words about sift(): mechanism-level
                     fs.append(Failure('extractor-contract-broken:flag-cleared-on-modified-iterate',
-                                      'layer %d: get_next_imf cleared the continue flag but its output differs from its input' % k))
+                                      'layer %d: get_next_imf cleared the continue flag but its output differs from its input' % k,
+                                      literal=False))
                     break
         return fs
 
@@ -296,7 +383,7 @@ class EnvNone(Stream):
 
     def compare(self, case, out, results):
         if isinstance(out, ImplError):
-            return 'interp_envelope raised %s' % out['error']
+            return 'skip:timeout' if out['error'] == 'Timeout' else 'interp_envelope raised %s' % out['error']
         r = results[0]
         if not r.ok:
             return 'model: ' + r.raw[:80]
@@ -306,15 +393,18 @@ class EnvNone(Stream):
         return None
 
     def holds(self, case, out):
+        # validator of an ASSUMPTION of the proof (how interp_envelope signals "no envelope"), not C01's own words: every kind
+        # of this stream is mechanism-level (a failure counts as a broken correspondence, never as a replayable C01 violation)
         if isinstance(out, ImplError):
-            return [Failure('envelope-raises:' + out['error'], out['msg'])]
+            return [] if out['error'] == 'Timeout' else [Failure('envelope-raises:' + out['error'], out['msg'], literal=False)]
         pk, tr = S.count_extrema(case['x'])
         fs = []
         if (pk < 2) != out['unone'] or (tr < 2) != out['lnone']:
-            fs.append(Failure('envelope-none-condition', '%d maxima / %d minima but upper None=%s lower None=%s' % (pk, tr, out['unone'], out['lnone'])))
+            fs.append(Failure('envelope-none-condition', '%d maxima / %d minima but upper None=%s lower None=%s'
+                              % (pk, tr, out['unone'], out['lnone']), literal=False))
         for k in ('ulen', 'llen'):
             if out[k] is not None and out[k] != len(case['x']):
-                fs.append(Failure('envelope-length', '%s=%s for %d samples' % (k, out[k], len(case['x']))))
+                fs.append(Failure('envelope-length', '%s=%s for %d samples' % (k, out[k], len(case['x'])), literal=False))
         return fs
 
     def tags(self, case, out):
